@@ -401,7 +401,51 @@ def tie_program_fails(case):
     return None
 
 
+def buffer0d_fails(case):
+    """a 0-d work array allocated by the program (algopy.zeros / ones with shape ()) and updated in place by a helper function
+    (NumPy and UTPM update a 0-d ARRAY in place, unlike a Python scalar): traced value and replays equal the direct run"""
+    def accumulate(out, v):
+        out += v
+
+    def scale(out, v):
+        out *= v
+
+    def prog(x):
+        total = algopy.zeros((), dtype=x) if case['alloc'] == 'zeros' else algopy.ones((), dtype=x)
+        for i in range(3):
+            accumulate(total, x[i] * x[i])
+        if case['alloc'] == 'ones':
+            scale(total, x[0])
+        return total * 1.0
+    mk = lambda a, kind: UTPM(np.array(a).copy()) if kind == 'utpm' else np.array(a)[0, 0].copy()
+    rec = case['rec']
+    want0 = prog(mk(rec, case['rec_kind']))
+    cg = algopy.CGraph()
+    fx = algopy.Function(mk(rec, case['rec_kind']))
+    try:
+        fy = prog(fx)
+    except Exception as ex:
+        cg.trace_off()
+        return 'buffer0d-record-exception: %s' % (type(ex).__name__ + ':' + str(ex)[:60])
+    cg.trace_off()
+    cg.independentFunctionList = [fx]
+    cg.dependentFunctionList = [fy]
+    if not close(val(fy.x), val(want0), 1e-12):
+        return 'buffer0d-record-value: the traced value of a program accumulating into a 0-d work array (%s) differs from the direct run while recording' % case['alloc']
+    for k, (kind, pt) in enumerate(case['pts']):
+        want = prog(mk(pt, kind))
+        try:
+            got = cg.function([mk(pt, kind)])[0]
+        except Exception as ex:
+            return 'buffer0d-replay-exception: replay on %s raised %s' % (kind, type(ex).__name__ + ':' + str(ex)[:60])
+        if np.shape(val(got)) != np.shape(val(want)) or not close(val(got), val(want), 1e-12):
+            return 'buffer0d-replay: replay number %d (on %s, recorded on %s) differs from the direct run (0-d work array, %s)' % (k + 1, kind, case['rec_kind'], case['alloc'])
+    return None
+
+
 def replay_case(ctx, case):
+    if case.get('op') == 'buffer0d':
+        return buffer0d_fails(case)
     if case.get('op') == 'tie-program':
         return tie_program_fails(case)
     if case.get('op') == 'workarray-replay':
@@ -483,6 +527,16 @@ def run(ctx):
             ctx.evaluations += 1
             ctx.count('hand-wrapped-work-array')
             f = workarray_replay_fails(case)
+            if f:
+                ctx.report(case, 'failure', f)
+    for alloc in ('zeros', 'ones'):
+        for rec_kind in ('ndarray', 'utpm'):
+            case = {'op': 'buffer0d', 'alloc': alloc, 'rec_kind': rec_kind, 'rec': rand_coeffs(rng, (3, 2, 3), -2, 2),
+                    'pts': [['ndarray', rand_coeffs(rng, (1, 1, 3), -2, 2)], ['utpm', rand_coeffs(rng, (3, 2, 3), -2, 2)], ['utpm', rand_coeffs(rng, (2, 1, 3), -2, 2)],
+                            ['ndarray', rand_coeffs(rng, (1, 1, 3), -2, 2)]]}
+            ctx.evaluations += 1
+            ctx.count('0-d-work-array')
+            f = buffer0d_fails(case)
             if f:
                 ctx.report(case, 'failure', f)
     for name in sorted(TIE_PROGRAMS):
